@@ -103,5 +103,13 @@ pub fn run_lane(line: &str) -> String {
             enc.name(), cuts
         ));
     }
+    // the convenience entry point `rewrite_str` (UTF-8, resynchronising sink) with no handlers
+    if ei % ASCII_COMPATIBLE_ENCODINGS.len() == 0 || enc == encoding_rs::UTF_8 {
+        match lol_html::rewrite_str(&doc, lol_html::RewriteStrSettings::new()) {
+            Ok(out) if out == doc => {}
+            Ok(out) => oracle.push_str(&format!(" ||ORACLE:C01:rewrite-str-identity output differs ({} vs {} bytes)", out.len(), doc.len())),
+            Err(e) => oracle.push_str(&format!(" ||ORACLE:C01:rewrite-str-identity error {e}")),
+        }
+    }
     format!("enc={} len={} writes={} nodes={} ok{oracle}", enc.name(), input.len(), cuts.len() + 1, single.texts.len())
 }
